@@ -1,4 +1,5 @@
 import PlumpyModel.PM.Proof7
+import PlumpyModel.PM.LProof8
 /-!
 # C04 — a kill request is never lost and no live process is unkillable
 
@@ -115,5 +116,100 @@ private def async1 : Prog := fun _ _ _ _ => ⟨1, .ret (.stop (some 3) true)⟩
 example : (kill (run async1 (init 0) [.tick])).2 = .action 0 := by decide +kernel
 example : (run async1 (init 0) [.tick, .kill, .pause, .play, .tick]).st.label = .killed := by decide +kernel
 end
+
+/-!
+## Requests made DURING a transition (listeners, state-event callbacks)
+
+Model: `PMF.L` (lean/PlumpyModel/PM/Listener.lean): the configuration carries an oracle `plan : List (Hook × Nat × Req)`; at the
+`n`-th `on_process_running / waiting / paused / played` notification and at the `n`-th exiting / entering phase of a transition the
+callback issues `pause()`, `play()` or `kill()`, executed with the semantics the real calls have at that point (`_stepping`,
+`_executing`, `_transitioning`).  `fireN n` is the notification function with requests nested at most `n` deep (the model uses
+`n = plan.length`, which is never exceeded; the theorems hold for every `n`).  `endOfStepL` is the closing part of `Process.step()`
+(the `except` clauses, running the interrupt action or the nominal transition, the `while` loop that enacts what was requested
+meanwhile, the `finally`); `dispatchL` is the same without `except` / `finally`.
+`KE c`: the process is KILLED or EXCEPTED.  `Owed l`: the oracle has issued a `kill()` at a moment when the process was live and no
+transition into a terminal state was in progress (`LCfg.issued` logs every request of the oracle with that flag).
+-/
+namespace L
+
+/-- **a kill that is pending when the step starts closing is enacted, whatever the listeners do** [F22]: with the kill action `k`
+pending in the interrupt slot (requested by anybody while the step was in flight), for every plan, every nesting depth and every
+outcome of the step, the closing part leaves the process KILLED — or EXCEPTED (the step failed, or entering KILLED failed). -/
+theorem C04_listener_pending_kill_enacted (n k : Nat) (l : LCfg) (r : StepEnd) (h : Pending k l.c) :
+    KE (endOfStepL (fireN n) l r).c := endOfStepL_pending k l r h
+
+/-- **no stale kill, with listeners**: for every program, every plan of requests issued from inside notifications and every history
+of events, in the configuration reached: a recorded kill (`_killing`) is the pending interrupt action of the step in flight unless
+the process has terminated, the pause alias points to a pause action, and no transition is in progress.  (`KJ`, the invariant that
+is carried through every model function — every transition, every request of the oracle in every context, the closing part of
+every step, every event.) -/
+theorem C04_listener_no_stale_killing (P : Prog) (nf : Nat) (plan : Plan) (evs : List Ev) :
+    let l := runL P (initL nf plan) evs
+    (∀ k, l.c.killing = some k → terminal l.c.st.label = true ∨ Pending k l.c) ∧ PausingOk l.c ∧ l.trans = none :=
+  let h := runL_kj P (initL nf plan) evs (kj_init nf plan) rfl
+  ⟨h.1.kok, h.1.pok, h.2⟩
+
+/-- **a kill issued by a listener is never lost** [F22, F25]: for every program, plan and history, if the oracle has issued a
+`kill()` at a moment when the process was live and no transition into a terminal state was in progress — from
+`on_process_running/waiting/paused/played` or from the exiting / entering phase of a transition, inside or outside a step, also while
+another request was being enacted — then in the configuration reached the process is KILLED or EXCEPTED, or the kill is the pending
+interrupt action of the step in flight (and then `C04_listener_pending_kill_enacted`: that step ends KILLED / EXCEPTED). -/
+theorem C04_listener_kill_committed (P : Prog) (nf : Nat) (plan : Plan) (evs : List Ev) :
+    Owed (runL P (initL nf plan) evs) →
+    KE (runL P (initL nf plan) evs).c ∨ ∃ k, Pending k (runL P (initL nf plan) evs).c :=
+  runL_owed P nf plan evs
+
+/-- … hence, whenever no step is in progress, every such kill has taken effect -/
+theorem C04_listener_kill_effective_between_steps (P : Prog) (nf : Nat) (plan : Plan) (evs : List Ev)
+    (hs : (runL P (initL nf plan) evs).c.stepping = false) :
+    Owed (runL P (initL nf plan) evs) → KE (runL P (initL nf plan) evs).c := by
+  intro ho
+  rcases runL_owed P nf plan evs ho with h | ⟨k, hp⟩
+  · exact h
+  · have := hp.2.2.2.2.1; rw [hs] at this; cases this
+
+/-- **a kill issued while a step is closing has been enacted when the step ends** [F22, F25]: from any configuration that
+satisfies the invariant (every reachable one does: `runL_kj`) with no transition in progress, for every nesting depth and outcome of
+the step: if the oracle issues a `kill()` on the live process during the closing part (from a notification, or from the exiting /
+entering phase of a transition into a non-terminal state, possibly while a pause is being enacted), or had issued one before, then
+when the closing part returns the process is KILLED (EXCEPTED if entering KILLED or the step failed).  In particular the `finally`
+of `step()` does not cancel it. -/
+theorem C04_listener_kill_enacted (n : Nat) (l : LCfg) (r : StepEnd) (p : KJ l) (htr : l.trans = none) :
+    Owed (endOfStepL (fireN n) l r) → KE (endOfStepL (fireN n) l r).c :=
+  endOfStepL_owed (fireN_good n) l r p htr
+
+/-- **nothing requested during the closing part is left behind** [F25]: when the `while` loop of the closing part returns, the
+interrupt-action slot is empty, or its action is done (it ran, or was retracted / superseded), or the process has terminated — for
+every configuration, plan and nesting depth.  So the `finally` of `step()` never cancels a request that a listener made on a process
+that is still live. -/
+theorem C04_listener_nothing_left_pending (n : Nat) (l : LCfg) (next : Option SObj) :
+    Quiet (dispatchL (fireN n) l next) := dispatchL_quiet (fireN_adv n) l next
+
+-- non-vacuity.  F25: `on_process_running` pauses, `on_process_paused` (while that pause is being enacted) kills: KILLED, with both
+-- action futures resolved; the kill is owed; the configuration in which that step closes satisfies the invariant.
+section
+private def planF25 : Plan := [(.running, 1, .pause), (.paused, 1, .kill)]
+private def closing : LCfg := { c := { init 0 with stepping := true }, plan := planF25 }
+example : (runL sync2 (initL 0 planF25) [.tick]).c.st.label = .killed := by decide +kernel
+example : Owed (runL sync2 (initL 0 planF25) [.tick]) := ⟨.paused, by decide +kernel⟩
+example : (runL sync2 (initL 0 planF25) [.tick]).c.handed.map (actionStatus (runL sync2 (initL 0 planF25) [.tick]).c) = [.done, .cancelled] := by
+  decide +kernel
+example : KJ closing ∧ closing.trans = none :=
+  ⟨KJ.mk (fun k hk => by cases hk) (fun i hi => by cases hi) (fun ho => by obtain ⟨_, hm⟩ := ho; cases hm)
+    (fun ho => by obtain ⟨_, hm⟩ := ho; cases hm), rfl⟩
+example : Owed (endOfStepL (fireN 2) closing (.next (some (.running 0 [] [])))) := ⟨.paused, by decide +kernel⟩
+example : (endOfStepL (fireN 2) closing (.next (some (.running 0 [] [])))).c.st.label = .killed := by decide +kernel
+-- F22: a pause is pending when the step closes, `on_process_waiting` kills during the transition that the pause action performs
+private def waiter : Prog := fun fn _ _ _ => if fn = 0 then ⟨1, .ret (.wait 1)⟩ else ⟨0, .ret (.stop (some 7) true)⟩
+example : (runL waiter (initL 0 [(.waiting, 1, .kill)]) [.tick, .pause, .tick]).c.st.label = .killed := by decide +kernel
+-- a kill from `on_process_played` outside a step (the process waits for the pause to end) is owed and made at once
+example : Owed (runL waiter (initL 0 [(.played, 1, .kill)]) [.pause, .tick, .play]) ∧
+    (runL waiter (initL 0 [(.played, 1, .kill)]) [.pause, .tick, .play]).c.st.label = .killed := ⟨⟨.played, by decide +kernel⟩, by decide +kernel⟩
+-- a kill from the exiting phase of the transition into FINISHED is not owed (the transition cannot be abandoned): FINISHED
+example : (runL sync2 (initL 0 [(.exiting, 3, .kill)]) [.tick]).c.st.label = .finished ∧
+    (runL sync2 (initL 0 [(.exiting, 3, .kill)]) [.tick]).issued = [(.exiting, .kill, false)] := by decide +kernel
+end
+
+end L
 
 end PMF
